@@ -582,4 +582,83 @@ theorem ashr_const (x c : BitVec w) (hc : c.toNat < w) (n : Nat) (hn : n = c.toN
   rw [shr_spec]
   simp [ashr, GoArith.shrE, Nat.not_le.mpr hc, ret]; rfl
 
+
+/-! constant DIVIDENDS: the overflow guard is decided at compile time from the constant `x` -/
+
+theorem quo_s_xconst (x y c0 c1 : BitVec w) (h0 : c0 = 0#w) (h1 : c1 = 1#w) (hx : x ≠ BitVec.intMin w) :
+    (do let v1 := icmp .eq (some y) (some c0)
+        assert .divZero v1
+        let v2 := select v1 (some c1) (some y)
+        let v3 ← sdiv (some x) v2
+        ret v3) = specM (GoArith.quo true x y) := by
+  subst h0 h1
+  rw [quo_signed]
+  simp only [icmp_some, assert_some, select_some, icmpB, ofBool_eq_one, beq_iff_eq]
+  by_cases hy : y = 0#w
+  · subst hy; simp [specM]; rfl
+  · simp [hy, hx, specM, sdiv, ret, bind, Except.bind, pure, Except.pure]
+
+theorem rem_s_xconst (x y c0 c1 : BitVec w) (h0 : c0 = 0#w) (h1 : c1 = 1#w) (hx : x ≠ BitVec.intMin w) :
+    (do let v1 := icmp .eq (some y) (some c0)
+        assert .divZero v1
+        let v2 := select v1 (some c1) (some y)
+        let v3 ← srem (some x) v2
+        ret v3) = specM (GoArith.rem true x y) := by
+  subst h0 h1
+  rw [rem_signed]
+  simp only [icmp_some, assert_some, select_some, icmpB, ofBool_eq_one, beq_iff_eq]
+  by_cases hy : y = 0#w
+  · subst hy; simp [specM]; rfl
+  · simp [hy, hx, specM, srem, ret, bind, Except.bind, pure, Except.pure]
+
+theorem quo_s_xmin (y c0 c1 cz cmin cneg : BitVec w) (t : BitVec 1) (ht : t = 1#1) (h0 : c0 = 0#w) (h1 : c1 = 1#w) (hz : cz = 0#w)
+    (hmin : cmin = BitVec.intMin w) (hneg : cneg = BitVec.allOnes w) (hw : 0 < w) :
+    (do let v1 := icmp .eq (some y) (some c0)
+        assert .divZero v1
+        let v2 := select v1 (some c1) (some y)
+        let v3 := icmp .eq (some y) (some cneg)
+        let v4 := LLVM.and (some t) v3
+        let v5 := select v4 (some cz) (some cmin)
+        let v6 := select v4 (some c1) v2
+        let v7 ← sdiv v5 v6
+        let v8 := select v4 (some cmin) v7
+        ret v8) = specM (GoArith.quo true cmin y) := by
+  subst ht h0 h1 hz hmin hneg
+  rw [quo_signed]
+  have h11 : ∀ b : Bool, (1#1 &&& ofBool b = 1#1) = (b = true) := by intro b; cases b <;> decide
+  simp only [icmp_some, assert_some, select_some, and_some, icmpB, ofBool_eq_one, beq_iff_eq, h11]
+  by_cases hy : y = 0#w
+  · subst hy; simp [specM]; rfl
+  · simp only [hy, if_false, specM]
+    by_cases hn : y = BitVec.allOnes w
+    · subst hn
+      have hs : (BitVec.intMin w).sdiv (BitVec.allOnes w) = BitVec.intMin w := by
+        rw [← BitVec.neg_one_eq_allOnes]; exact BitVec.intMin_sdiv_neg_one
+      simp [sdiv, one_ne_zero_bv hw, ret, bind, Except.bind, pure, Except.pure, zero_ne_intMin hw, hs]
+    · simp [hn, hy, sdiv, ret, bind, Except.bind, pure, Except.pure]
+
+theorem rem_s_xmin (y c0 c1 cz cmin cneg : BitVec w) (t : BitVec 1) (ht : t = 1#1) (h0 : c0 = 0#w) (h1 : c1 = 1#w) (hz : cz = 0#w)
+    (hmin : cmin = BitVec.intMin w) (hneg : cneg = BitVec.allOnes w) (hw : 0 < w) :
+    (do let v1 := icmp .eq (some y) (some c0)
+        assert .divZero v1
+        let v2 := select v1 (some c1) (some y)
+        let v3 := icmp .eq (some y) (some cneg)
+        let v4 := LLVM.and (some t) v3
+        let v5 := select v4 (some cz) (some cmin)
+        let v6 := select v4 (some c1) v2
+        let v7 ← srem v5 v6
+        let v8 := select v4 (some cz) v7
+        ret v8) = specM (GoArith.rem true cmin y) := by
+  subst ht h0 h1 hz hmin hneg
+  rw [rem_signed]
+  have h11 : ∀ b : Bool, (1#1 &&& ofBool b = 1#1) = (b = true) := by intro b; cases b <;> decide
+  simp only [icmp_some, assert_some, select_some, and_some, icmpB, ofBool_eq_one, beq_iff_eq, h11]
+  by_cases hy : y = 0#w
+  · subst hy; simp [specM]; rfl
+  · simp only [hy, if_false, specM]
+    by_cases hn : y = BitVec.allOnes w
+    · subst hn
+      simp [srem, one_ne_zero_bv hw, ret, bind, Except.bind, pure, Except.pure, zero_ne_intMin hw, srem_allOnes _ hw]
+    · simp [hn, hy, srem, ret, bind, Except.bind, pure, Except.pure]
+
 end LlgoVerif.Arith
